@@ -28,6 +28,9 @@ FIXES = [
  ('C03','ansi_preserving_slice does not cut','ansi/mod.rs: non-ASCII character among the prefix columns of a raw combined-diff line made ansi_preserving_slice start inside a character (panic)'),
  ('C14','in plain diff -u output is not a file header','diff_header.rs: in plain diff -u output an added line starting with `++ ` (i.e. `+++ x`) inside a hunk printed a spurious file header'),
  ('C01','that is not a submodule line is not dropped','submodule.rs: a first removed hunk line starting with `Subproject commit ` without a 40-digit hash was swallowed (not rendered at all)'),
+ ('C02','also ignores decorations requested inside','options/set.rs: with --color-only, `box`/`underline`/`overline` inside commit/file/hunk-header style strings still drew decorations (three output lines for one input line)'),
+ ('C02','keeps the commit line also with --commit-style omit','commit_meta.rs: --color-only --commit-style omit dropped the commit line (13 input lines -> 12 output lines)'),
+ ('C02','color-only from gitconfig disables the side-by-side feature','options/set.rs: `color-only = true` in gitconfig plus side-by-side left the side-by-side feature enabled, adding a line-number gutter to every hunk line'),
 ]
 out = []
 for prop, pat, what in FIXES:
